@@ -31,7 +31,7 @@ ASSUMPTIONS = [
     "which of several same-type values supplied by ONE block wins is not specified: any of them is accepted",
     "bare generic G without arguments: default-constructibility is unspecified (either answer accepted)",
 ]
-REQUIRED_CLASSES = ["shadowing", "outer-frame-decides", "disposable-state-decides", "default-after-earlier-lookup", "missing-state", "outside-any-scope"]
+REQUIRED_CLASSES = ["prepared-scope", "shadowing", "outer-frame-decides", "disposable-state-decides", "default-after-earlier-lookup", "missing-state", "outside-any-scope"]
 
 
 def model(prog):
@@ -137,6 +137,8 @@ def run_case(case) -> Outcome:
             else:
                 out.unspecified.append("bare-generic-default-construction")
             seen_types.add(name)
+    if any(e["ev"] == "prepared" for e in run.log):
+        classes.add("prepared-scope")
     out.classes = sorted(classes)
     out.nontrivial = bool(classes & {"shadowing", "outer-frame-decides", "disposable-state-decides", "default-after-earlier-lookup"})
     return out
@@ -154,11 +156,14 @@ def strategy(tier):
         body = st.lists(st.one_of(probe, children), min_size=0, max_size=4).map(
             lambda ops: [{"k": "probe", "lookups": [["A", False], ["A", True]]}] if not ops else ops
         )
+        # prep=k: the scope OBJECT is constructed when the k-th enclosing block's body starts and entered later, at its
+        # position (a scope prepared by a factory / decorator); lookups must follow the nesting at ENTRY
+        prep = st.sampled_from([0, 0, 0, 1, 2, 3])
         a_scope = st.builds(
-            lambda n, s, d, dobj, b: {"k": "scope", "mode": "async", "name": n, "state": s, "disp": d, "disp_obj": dobj, "body": b},
-            names, svs, st.one_of(st.none(), st.lists(P.simple_disp_strategy(), min_size=0, max_size=3)), st.booleans(), body,
+            lambda n, s, d, dobj, b, pr: {"k": "scope", "mode": "async", "name": n, "state": s, "disp": d, "disp_obj": dobj, "body": b, "prep": pr},
+            names, svs, st.one_of(st.none(), st.lists(P.simple_disp_strategy(), min_size=0, max_size=3)), st.booleans(), body, prep,
         )  # fmt: skip
-        s_scope = st.builds(lambda n, s, b: {"k": "scope", "mode": "sync", "name": n, "state": s, "disp": None, "body": b}, names, svs, body)
+        s_scope = st.builds(lambda n, s, b, pr: {"k": "scope", "mode": "sync", "name": n, "state": s, "disp": None, "body": b, "prep": pr}, names, svs, body, prep)
         upd = st.builds(lambda s, b: {"k": "updated", "state": s, "body": b}, svs, body)
         return st.one_of(a_scope, s_scope, upd)
 
